@@ -82,6 +82,7 @@ def add_header_to_file(
 ) -> int:
     """Helper function."""
     # pylint: disable=too-many-arguments,too-many-locals
+    # pylint: disable=too-many-branches,too-many-statements
     result = 0
     created_dot_license = False
     comment_style: Optional[Type[CommentStyle]] = NAME_STYLE_MAP.get(
@@ -106,8 +107,19 @@ def add_header_to_file(
             path.touch()
             comment_style = EmptyCommentStyle
 
-    with open(path, "r", encoding="utf-8", newline="") as fp:
-        text = fp.read()
+    try:
+        with open(path, "r", encoding="utf-8", newline="") as fp:
+            text = fp.read()
+    except UnicodeDecodeError:
+        out.write(
+            _(
+                "Error: '{path}' is not valid UTF-8; did not add a header"
+            ).format(path=path)
+        )
+        out.write("\n")
+        if created_dot_license:
+            Path(path).unlink(missing_ok=True)
+        return 1
 
     # A byte order mark must stay the very first thing in the file.
     bom = ""
